@@ -16,6 +16,10 @@ claimed = {
    "Decides structural necessary conditions of the batcher contract: append-then-check in one fill-lock region, every send on the closable channel inside the lock region behind the stop-flag test, batch=nil/seq before the send under the lock, count clause >= and bytes clause <= with limit-set guards, sequenced commit, flush heartbeat, worker never takes the fill lock, stop shape. It does not decide byte/count arithmetic over arrival patterns nor flush latency."),
  "C09": ("CFG control-dependence rules with polarity on the retry loop, loop-counter shape for the attempt lower bound, sibling agreement over all NewRetriableBatcher call sites", "§3 C09",
    "Decides structural necessary conditions of one-way routing of a failed batch: retry-loop exits and attempt lower bound, exhaustion path (callback once with the batch's events; reset+InDeadQueue iff the dead-queue flag, both directions), commit loads events after the send, nine sibling onError closures agree (unconditional Fail loop over every event, flag wired from the Router, fatal only without dead queue), Router.Fail shape. It does not decide pause growth or run-time issuer identity."),
+ "C11": ("CFG control-dependence and must-pass rules on the request handler, read loop and chunk scanner; defer-based acquire/release pairing; lock table for the source-id free list", "§3 C11",
+   "Decides structural necessary conditions of the HTTP input contract: success response only on the processBulk==nil edge; read-loop exits (n==0 ∧ EOF / error), every chunk processed, carry-over threaded and flushed as last chunk; pooled buffers, gzip reader and source id released by dominating defers; free list under its mutex; one In per newline in the chunk scanner. It does not decide that the emitted lines equal the body's lines."),
+ "C20": ("CFG control-dependence classification of every refusal return; guard-clause and result-shape rules for the size check; constant-verdict and reachability rules inside IsSpam", "§3 C20",
+   "Decides structural necessary conditions of admission control: the refusal returns of In/streamEvent are exactly the documented reasons; checkInputBytes refuses/cuts/passes under exactly the documented guards with result shape bytes[:max](+newline); IsSpam is gated by threshold>=0 ∧ !partial; inside IsSpam disabled/exception/new-source return false, a matching exception reaches no other verdict, constant true only for blocked, counting verdict is counter>=threshold. It does not decide ban/unban arithmetic over histories."),
 }
 NA = {
  "C06": "the claim is an equation between runtime byte positions (offset = start + scanned) for every content, buffer size and append split; no sound static argument in reach bounds it, and the only structural proxies are matches on one loop's arithmetic (a frozen fragment)",
